@@ -214,8 +214,65 @@ def random_field(rng: typing.Any, names: list[str]) -> dict[str, typing.Any]:
     return f
 
 
+def check_sequence(rec: Recorder, n: int, default_kind: str, percall_kind: str, fixed_boundary: bool) -> None:
+    """Several multipart requests through ONE RequestMethods object whose default headers (or a header object the
+    caller reuses for every call) are a dict / an HTTPHeaderDict: each request's Content-Type must name the boundary
+    its own body uses, and neither the defaults nor the caller's object may change."""
+    import re
+
+    from urllib3._collections import HTTPHeaderDict
+    from urllib3._request_methods import RequestMethods
+
+    case = {"sequence": n, "default_headers": default_kind, "percall_headers": percall_kind, "fixed_boundary": fixed_boundary}
+    seen: list[tuple[typing.Any, dict[str, str]]] = []
+
+    class Capture(RequestMethods):
+        def urlopen(self, method: str, url: str, body: typing.Any = None, headers: typing.Any = None, **kw: typing.Any) -> typing.Any:  # type: ignore[override]
+            seen.append((body, {k: v for k, v in headers.items()}))
+            return None
+
+    def mk(kind: str) -> typing.Any:
+        return None if kind == "none" else ({"X-Default": "d"} if kind == "dict" else HTTPHeaderDict({"X-Default": "d"}))
+
+    defaults = mk(default_kind)
+    percall = mk(percall_kind)
+    c = Capture(headers=defaults)
+    rec.mon("multipart_sequence")
+    for i in range(n):
+        kw: dict[str, typing.Any] = {}
+        if percall is not None:
+            kw["headers"] = percall
+        if fixed_boundary:
+            kw["multipart_boundary"] = f"fixed{i}"
+        c.request_encode_body("POST", "/upload", fields={"n": str(i), "f": ("a.txt", b"data%d" % i)}, **kw)
+    for i, (body, hdrs) in enumerate(seen):
+        ct = hdrs.get("Content-Type", "")
+        m = re.search(r'boundary=("?)([^";]+)\1', ct)
+        if not m:
+            rec.fail(case, "content-type-without-boundary", {"request": i, "content_type": ct}, f"request {i}: Content-Type {ct!r}")
+            return
+        b = m.group(2).encode()
+        if not bytes(body).startswith(b"--" + b + b"\r\n") or not bytes(body).endswith(b"--" + b + b"--\r\n"):
+            rec.fail(case, "content-type-names-another-boundary", {"request": i, "content_type": ct, "body_starts": bytes(body)[:40]}, f"request {i}: Content-Type names boundary {b!r} but the body starts with {bytes(body)[:30]!r}")
+            return
+        if (defaults is not None or percall is not None) and hdrs.get("X-Default") != "d":
+            rec.fail(case, "caller-header-lost", {"request": i}, "default / per-call header X-Default missing")
+            return
+    for name, obj in (("default headers", defaults), ("per-call headers", percall)):
+        if obj is not None and dict(obj.items()) != {"X-Default": "d"}:
+            rec.fail(case, "caller-headers-mutated", {"which": name, "after": dict(obj.items())}, f"the {name} object was changed to {dict(obj.items())!r}")
+            return
+
+
 def run_shard(ctx: Ctx, rec: Recorder) -> None:
     names = hostile_names(ctx.pick(3, 4))
+    if ctx.shard == 0:
+        for n in (1, 2, 3):
+            for dk in ("none", "dict", "hd"):
+                for pk in ("none", "dict", "hd"):
+                    for fixed in (False, True):
+                        rec.case(["sequence", n, dk, pk, fixed])
+                        check_sequence(rec, n, dk, pk, fixed)
     # (i) every hostile name/filename (exhaustive up to the length bound) as name, as filename, as both
     idx = 0
     for nm in names:
@@ -263,4 +320,7 @@ def run_shard(ctx: Ctx, rec: Recorder) -> None:
 
 def replay(case: dict[str, typing.Any], ctx: Ctx, rec: Recorder) -> None:
     rec.case(case)
+    if "sequence" in case:
+        check_sequence(rec, case["sequence"], case["default_headers"], case["percall_headers"], case["fixed_boundary"])
+        return
     check(rec, case["fields"], case["container"], case["boundary"], case["via"])
